@@ -7,7 +7,8 @@ A configuration (JSON-able):
   workers  number of worker threads
   init     {str(i): DONE|FAILED|SKIPPED}   pre-populated initial environment (optional)
 """
-import copy
+import enum
+import threading as _real_threading
 
 import detsched
 
@@ -34,6 +35,84 @@ OUTCOMES = ('ok', 'fail', 'raise', 'none', 'notpair', 'badstatus', 'badupdate', 
 # environment (a mapping where there was a list, a number where there was a mapping); for Sched.tla it is 'ok'
 MODEL_OUTCOME = {'reshape': 'ok'}
 
+# ---------------------------------------------------------------------------
+# opaque leaves: cfg['opaque'] = dict(kind=<one of OPAQUE_KINDS>, tasks=[task indices]).  The update of such a task (and
+# its entry in the initial environment, if it is carried in DONE) holds -- directly under the task's key, in its nested
+# mapping and in a mapping of its own inside the nested mapping -- one object that is not data: a well-formed update may
+# carry any Python object (a lock, an open file, a generator, a handle).  Such an object can only be handed on, by
+# reference: it cannot be copied, pickled, compared (identity only) and, for one kind, not even printed.
+# ---------------------------------------------------------------------------
+OPAQUE_KINDS = ('lock', 'nocopy', 'gen', 'norepr')
+
+
+class _NoCopy:
+    """Our own lock-like handle: falsy, identity is its only equality, cannot be copied nor pickled."""
+
+    def __bool__(self):
+        return False
+
+    def __eq__(self, other):
+        return NotImplemented
+
+    __hash__ = object.__hash__
+
+    def __copy__(self):
+        raise TypeError("cannot copy '%s' object" % type(self).__name__)
+
+    def __deepcopy__(self, memo):
+        raise TypeError("cannot copy '%s' object" % type(self).__name__)
+
+    def __reduce_ex__(self, protocol):
+        raise TypeError("cannot pickle '%s' object" % type(self).__name__)
+
+    def __reduce__(self):
+        raise TypeError("cannot pickle '%s' object" % type(self).__name__)
+
+
+class _NoRepr(_NoCopy):
+    """The same, and it has no printable form either."""
+
+    def __repr__(self):
+        raise TypeError("'%s' object has no printable form" % type(self).__name__)
+
+    __str__ = __repr__
+
+    def __format__(self, spec):
+        raise TypeError("'%s' object has no printable form" % type(self).__name__)
+
+
+def make_leaf(kind):
+    if kind == 'lock':
+        return _real_threading.Lock()       # the real thing (this module sees the stock threading module)
+    if kind == 'gen':
+        return (x for x in ())
+    if kind == 'nocopy':
+        return _NoCopy()
+    if kind == 'norepr':
+        return _NoRepr()
+    raise AssertionError(kind)
+
+
+_SCALARS = (bool, int, float, str, bytes, enum.Enum)
+
+
+def plain(obj, rs):
+    """A private JSON-like copy of (a part of) an environment entry: containers are copied, data leaves kept, and a leaf
+    that is not data is NOT copied but mapped, by identity, to the token ['opaque', task, version] of the object the
+    probe of that task created (['foreign', type name] for an object no probe created, e.g. a copy of one)."""
+    if obj is None or isinstance(obj, _SCALARS):
+        return obj
+    if isinstance(obj, dict):
+        return {k: plain(v, rs) for k, v in obj.items()}
+    if isinstance(obj, list):
+        return [plain(v, rs) for v in obj]
+    if isinstance(obj, tuple):
+        return tuple(plain(v, rs) for v in obj)
+    who = rs.leaf_ids.get(id(obj)) if rs is not None else None
+    if who is not None and rs.leaves[who] is obj:
+        return ['opaque', who[0], who[1]]
+    return ['foreign', type(obj).__name__]
+
 
 class RunState:
     """What the probes record during one execution."""
@@ -45,6 +124,38 @@ class RunState:
         self.seen_step = {}   # task -> controller step index at which do() started
         self.updates = {}     # task -> update returned by its (last) execution
         self.events = []      # ('start'|'end', task, step)
+        self.leaves = {}      # (task, version) -> the opaque object created for that update (kept alive: ids stay unique)
+        self.leaf_ids = {}    # id(object) -> (task, version)
+
+    def opaque_kind(self, idx):
+        """The kind of opaque leaf task idx publishes in the run in progress, or None."""
+        opq = self.cfg.get('opaque')
+        return opq['kind'] if opq and idx in opq['tasks'] else None
+
+    def leaf(self, idx, version):
+        """The opaque object of update `version` of task idx (created on first use), None if the task publishes plain data."""
+        kind = self.opaque_kind(idx)
+        if kind is None:
+            return None
+        obj = self.leaves.get((idx, version))
+        if obj is None:
+            obj = self.leaves[(idx, version)] = make_leaf(kind)
+            self.leaf_ids[id(obj)] = (idx, version)
+        return obj
+
+
+def entry_body(idx, version, leaf, reshaped=False):
+    """The data a probe publishes under its own key."""
+    if reshaped:
+        nested = {'a': {'deep': [idx, version]}, 'b': version}
+    else:
+        nested = {'a': [idx, version], 'b': {'c': version}}
+    body = {'payload': [idx, version], 'nested': nested}
+    if leaf is not None:
+        nested['res'] = {'h': leaf}
+        nested['h'] = leaf
+        body['handle'] = leaf
+    return body
 
 
 def make_probe_class():
@@ -64,9 +175,9 @@ def make_probe_class():
         def __eq__(self, other):
             return self is other
 
-        def payload(self):
+        def payload(self, reshaped=False):
             v = self.rs.execs[self.idx]
-            return {self.name: {'payload': [self.idx, v], 'nested': {'a': [self.idx, v], 'b': {'c': v}}}}
+            return {self.name: entry_body(self.idx, v, self.rs.leaf(self.idx, v), reshaped)}
 
         def do(self, env, config):
             rs = self.rs
@@ -76,7 +187,7 @@ def make_probe_class():
             snap = {}
             for d in self.deps_idx:
                 try:
-                    snap[d] = copy.deepcopy(dict(env['t%d' % d]))
+                    snap[d] = plain(dict(env['t%d' % d]), rs)
                 except KeyError:
                     snap[d] = None
             rs.seen[self.idx] = snap
@@ -87,8 +198,7 @@ def make_probe_class():
                 rs.updates[self.idx] = upd
                 return upd, _TaskStatus.DONE
             if out == 'reshape':
-                v = rs.execs[self.idx]
-                upd = {self.name: {'payload': [self.idx, v], 'nested': {'a': {'deep': [self.idx, v]}, 'b': v}}}
+                upd = self.payload(reshaped=True)
                 rs.updates[self.idx] = upd
                 return upd, _TaskStatus.DONE
             if out == 'fail':
@@ -173,7 +283,7 @@ def build(cfg, rs, tasks=None):
     return tasks, hard_graph, soft_graph
 
 
-def initial_env(cfg):
+def initial_env(cfg, rs=None):
     load()
     d = {}
     for k, st in (cfg.get('init') or {}).items():
@@ -182,8 +292,9 @@ def initial_env(cfg):
             continue
         entry = {'status': getattr(_TaskStatus, st)}
         if st == 'DONE':
-            entry.update({'payload': [i, 0], 'nested': {'a': [i, 0], 'b': {'c': 0}},
-                          'start_clock': -2 * (cfg['n'] - i + 1), 'end_clock': -2 * (cfg['n'] - i + 1) + 1})
+            # what an earlier run of the same probe left (an opaque leaf included, if the task publishes one)
+            entry.update(entry_body(i, 0, rs.leaf(i, 0) if rs is not None else None))
+            entry.update({'start_clock': -2 * (cfg['n'] - i + 1), 'end_clock': -2 * (cfg['n'] - i + 1) + 1})
         d['t%d' % i] = entry
     return ENV_MOD.Env(d)
 
@@ -209,7 +320,7 @@ def execute(cfg, strategy, on_step=None, max_steps=None, attach=None):
 
     tasks, hard_graph, soft_graph = build(cfg, rs)
     holder['tasks'] = tasks
-    env = initial_env(cfg)
+    env = initial_env(cfg, rs)
     holder['env'] = env
     backend = Q_MOD.QueueScheduling(n_workers=cfg['workers'])
     sched = _Scheduler(hard_graph=hard_graph, soft_graph=soft_graph, backend=backend)
@@ -310,8 +421,15 @@ def status_name(env, i):
 # ---------------------------------------------------------------------------
 # projection of the real state onto the variables of specs/Sched.tla
 # ---------------------------------------------------------------------------
-def _pay_version(entry, i):
-    """0 none, 1 carried in by the initial environment, 2 produced in this run, 3 torn / inconsistent."""
+def _is_leaf(x, want, who):
+    """x is the very object `want` (live entry) or the token plain() gave it (snapshot taken by a probe)."""
+    return x is want or (type(x) is list and x == ['opaque', who[0], who[1]])
+
+
+def _pay_version(entry, i, rs=None):
+    """0 none, 1 carried in by the initial environment, 2 produced in this run, 3 torn / inconsistent.  `entry` is a live
+    environment entry or a snapshot made by plain().  If update v of task i carried an opaque leaf, the update is
+    complete only if the very object the task created sits at the three places it was published at."""
     if entry is None:
         return 0
     keys = [k for k in ('payload', 'nested') if k in entry]
@@ -326,6 +444,12 @@ def _pay_version(entry, i):
         reshaped = nst.get('a') == {'deep': [i, v]} and nst.get('b') == v
         if p[0] != i or not (reshaped or (nst.get('a') == [i, v] and nst.get('b') == {'c': v})):
             return 3
+        want = rs.leaves.get((i, v)) if rs is not None else None
+        if want is not None:
+            res = nst.get('res')
+            if not (isinstance(res, dict) and _is_leaf(res.get('h'), want, (i, v)) and _is_leaf(nst.get('h'), want, (i, v))
+                    and _is_leaf(entry.get('handle'), want, (i, v))):
+                return 3
         return 1 if v == 0 else 2
     except Exception:  # pylint: disable=broad-except
         return 3
@@ -342,7 +466,7 @@ def _clk_class(entry):
     return 'init' if e < 0 else 'run'
 
 
-def view_of(entry, i, execs):
+def view_of(entry, i, execs, rs=None):
     """Projection of one environment entry as a dependent sees it (Sched!View)."""
     if entry is None or 'status' not in entry:
         stn = 'ABSENT'
@@ -351,7 +475,7 @@ def view_of(entry, i, execs):
             stn = _TaskStatus(entry['status']).name
         except ValueError:
             stn = 'BOGUS'
-    return dict(st=stn, pay=_pay_version(entry, i), clk=_clk_class(entry) not in ('none', 'torn'), ex=execs)
+    return dict(st=stn, pay=_pay_version(entry, i, rs), clk=_clk_class(entry) not in ('none', 'torn'), ex=execs)
 
 
 class Recorder:
@@ -375,9 +499,9 @@ class Recorder:
         st, pay, clk = [], [], []
         for i in range(1, n + 1):
             e = d.get('t%d' % i)
-            v = view_of(e, i, 0)
+            v = view_of(e, i, 0, rs)
             st.append(v['st'])
-            pay.append(_pay_version(e, i))
+            pay.append(v['pay'])
             clk.append(_clk_class(e))
         q = ctl.queues[-1] if getattr(ctl, 'queues', None) else backend.queue     # the queue of the call in progress
         queue = [getattr(x, 'idx', 0) for x in q.items]      # 0 = a stop sentinel, whatever object it is
@@ -460,7 +584,7 @@ class Recorder:
                 continue
             if i not in self.execs_at_seen:
                 self.execs_at_seen[i] = {dd: rs.execs[dd] for dd in snap}
-            seen.append([dict(d=dd, **view_of(snap[dd], dd, self.execs_at_seen[i][dd])) for dd in sorted(snap)])
+            seen.append([dict(d=dd, **view_of(snap[dd], dd, self.execs_at_seen[i][dd], rs)) for dd in sorted(snap)])
         self.events.append(dict(thr=(tid - base if tid > 0 else 0), op=_opname(op), st=st, pay=pay, clk=clk, queue=queue, unfinished=q.unfinished,
                                 mpc=mpc, wpc=wpc, cur=cur, cvOwner=cv_owner, cvWaiting=cv_wait, cvNotified=cv_not,
                                 seen=seen, execs=[rs.execs[i] for i in range(1, n + 1)]))
@@ -496,7 +620,7 @@ def record(cfg, strategy, max_steps=None, hook=None):
                           outcome_real=[cfg['outcome'].get(str(i), 'ok') for i in range(1, cfg['n'] + 1)],
                           init=[(cfg.get('init') or {}).get(str(i), 'ABSENT') for i in range(1, cfg['n'] + 1)],
                           order=order, calls=cfg.get('calls', 1), nested=cfg.get('nested') or {}, prior=cfg.get('prior') or {},
-                          interrupt=int(cfg.get('interrupt') or 0), falsy=sorted(cfg.get('falsy') or [])),
+                          interrupt=int(cfg.get('interrupt') or 0), falsy=sorted(cfg.get('falsy') or []), opaque=cfg.get('opaque') or {}),
                  events=events, verdict=ex.ctl.verdict, raised=repr(ex.raised) if ex.raised is not None else '',
                  schedule=[t for t, _ in ex.ctl.trace])
     return ex, trace
